@@ -31,7 +31,11 @@ def run(cx, chk):
     chk.rule("C12.R3", "Evicted payload provenance: the departed node's own key/value, or the incoming pair on the capacity-0 hand-back")
     chk.rule("C12.R4", "capacity-0 hand-back: RawLRU::put returns Evicted{k, v} of the incoming pair when cap == 0")
     chk.rule("C12.R5", "PartialEq/Clone of PutResult are structural and exhaustive; Copy is bounded by K: Copy, V: Copy")
+    chk.rule("C12.R6", "results that are discarded because a guard makes eviction impossible (W-TinyLFU's put_protected under protected_len < protected_cap) rely on the guard reading "
+                       "the true bound: clones and builders of the segmented / W-TinyLFU caches keep every bound in its own field")
     for cfg, F in cx.cfgs():
+        composite.clone_bounds(cx, chk, cfg, F, "C12.R6", only=("SegmentedCache", "WTinyLFUCache"))
+        composite.builder_setters(cx, chk, cfg, F, "C12.R6", only=("SegmentedCacheBuilder", "WTinyLFUCacheBuilder"))
         for short, name, trait in PUTS:
             f = composite.cache_method(F, api.CACHES[short], name, trait)
             if short != "WTinyLFUCache":
